@@ -421,3 +421,69 @@ def check_value_type(rep, rule, cls, why=None):
               'place (the revisit test compares a state with itself)',
               {'shared': shared}, line=init.node.lineno,
               witness='two local functions reaching a loop header at different times')
+
+
+def check_state_eq(model, rep, rule, cls):
+  """The change flag of the transfer function is `old != new` on the state
+  class: its equality must look at every symbol.  Decided on the shape of
+  __eq__ / __ne__: inside a loop over the symbols the only return is `return
+  False`; outside, `all(<comparison> for s in <symbols>)` without a filter, a
+  plain comparison of the two tables, or a constant; __ne__ is the negation of
+  __eq__ (or absent: Python derives it)."""
+  from sa import tpl
+  eq = cls.methods.get('__eq__')
+  if eq is None:
+    raise core.AnalysisError('%s.__eq__ not found' % cls.name)
+  probs = []
+  par = {}
+  for a in ast.walk(eq.node):
+    for b in ast.iter_child_nodes(a):
+      par[b] = a
+
+  def in_loop(n):
+    while n in par:
+      n = par[n]
+      if isinstance(n, (ast.For, ast.While)):
+        return True
+    return False
+  n_ret = 0
+  for r in ast.walk(eq.node):
+    if not isinstance(r, ast.Return):
+      continue
+    n_ret += 1
+    v = tpl.expand(eq, r.value, r) if r.value is not None else None
+    if in_loop(r):
+      if not (isinstance(v, ast.Constant) and v.value is False):
+        probs.append('returns %s from inside the loop over the symbols' % core.norm(r))
+      continue
+    if isinstance(v, ast.Constant) and isinstance(v.value, bool):
+      continue
+    if isinstance(v, ast.Call) and core.dotted(v.func) == 'all' and len(v.args) == 1 and \
+        isinstance(v.args[0], (ast.GeneratorExp, ast.ListComp)):
+      g = v.args[0]
+      if any(gen.ifs for gen in g.generators):
+        probs.append('all() over a filtered selection of the symbols')
+      continue
+    if isinstance(v, ast.Compare) and len(v.ops) == 1 and isinstance(v.ops[0], ast.Eq):
+      continue
+    if isinstance(v, ast.BoolOp) and isinstance(v.op, ast.And):
+      continue
+    probs.append('returns %s' % core.norm(r)[:60])
+  if any(isinstance(x, ast.Break) for x in ast.walk(eq.node)):
+    probs.append('leaves the loop over the symbols early (break)')
+  ne = cls.methods.get('__ne__')
+  if ne is not None:
+    rets = [r for r in ast.walk(ne.node) if isinstance(r, ast.Return)]
+    p0 = (ne.params() + ['other'])[0]
+    okn = len(rets) == 1 and core.norm(rets[0].value) in (
+        'not self.__eq__(%s)' % p0, 'not self == %s' % p0, 'not (self == %s)' % p0)
+    if not okn:
+      probs.append('__ne__ is not the negation of __eq__')
+  rep.check(n_ret >= 1 and not probs, rule, '%s:%s:equality-looks-at-every-symbol' % (
+      eq.module.rel, cls.name),
+            'the fixed-point iteration stops when the new state equals the old one: '
+            'an equality that answers before it has compared every symbol ends the '
+            'iteration while information is still moving', {'problems': probs},
+            line=eq.node.lineno,
+            witness='a loop that changes the type / definitions of a variable that is '
+            'not the first symbol of the table')
